@@ -102,10 +102,13 @@ Definition atom_token (a : atom) : token :=
 Fixpoint glue (l : list atom) : list token :=
   match l with
   | [] => []
-  | ASym (SCmp c) :: ANum 0 :: r => TCmpZ c :: glue r
-  | ANum 0 :: ASym (SCmp c) :: r => TZCmp c :: glue r
-  | ASym SColon :: AWord "cns" :: r => TColonCns :: glue r
-  | a :: r => atom_token a :: glue r
+  | a :: l' =>
+      match a, l' with
+      | ASym (SCmp c), ANum 0 :: r => TCmpZ c :: glue r
+      | ANum 0, ASym (SCmp c) :: r => TZCmp c :: glue r
+      | ASym SColon, AWord s :: r => if String.eqb s "cns" then TColonCns :: glue r else TSym SColon :: glue l'
+      | _, _ => atom_token a :: glue l'
+      end
   end.
 
 (* ---------- documents ---------- *)
